@@ -13,17 +13,25 @@ package soyhtml
 //@   nosafety
 
 //@ func htmlEscapeString
-//@   props C03
+//@   props C03 C12
 //@   ghost covered int = 0
-//@   at call io.WriteString#0 assert[tile-plain] 0 <= covered && substr(arg1, str, covered) && covered + len(arg1) <= len(str) && forall(k, covered, covered + len(arg1), !special(str[k]))
+//@   ghost wfail bool = false
+//@   at call io.WriteString#0 assert[tile-plain;C03] 0 <= covered && substr(arg1, str, covered) && covered + len(arg1) <= len(str) && forall(k, covered, covered + len(arg1), !special(str[k]))
+//@   at call io.WriteString#0 assert[no-write-after-failure;C12] !wfail
 //@   at call io.WriteString#0 set covered = covered + len(arg1)
-//@   at call io.Writer.Write#0 assert[tile-ref] 0 <= covered && covered < len(str) && isRef(arg1, str[covered])
+//@   at call io.WriteString#0 after set wfail = wfail || res1 != nil
+//@   at call io.Writer.Write#0 assert[tile-ref;C03] 0 <= covered && covered < len(str) && isRef(arg1, str[covered])
+//@   at call io.Writer.Write#0 assert[no-write-after-failure;C12] !wfail
 //@   at call io.Writer.Write#0 set covered = covered + 1
-//@   at call io.WriteString#1 assert[tile-tail] 0 <= covered && substr(arg1, str, covered) && covered + len(arg1) <= len(str) && forall(k, covered, covered + len(arg1), !special(str[k]))
+//@   at call io.Writer.Write#0 after set wfail = wfail || res1 != nil
+//@   at call io.WriteString#1 assert[tile-tail;C03] 0 <= covered && substr(arg1, str, covered) && covered + len(arg1) <= len(str) && forall(k, covered, covered + len(arg1), !special(str[k]))
+//@   at call io.WriteString#1 assert[no-write-after-failure;C12] !wfail
 //@   at call io.WriteString#1 set covered = covered + len(arg1)
-//@   ensures[all-covered] covered == len(str)
+//@   at call io.WriteString#1 after set wfail = wfail || res1 != nil
+//@   ensures[all-covered;C03] result == nil ==> covered == len(str)
+//@   ensures[failure-surfaces;C12] wfail == (result != nil)
 //@   loop 0
-//@     invariant 0 <= last && last <= i && i <= len(str) && covered == last
+//@     invariant 0 <= last && last <= i && i <= len(str) && covered == last && !wfail
 //@     invariant forall(k, last, i, !special(str[k]))
 
 // ---------------------------------------------------------------------------
@@ -69,7 +77,11 @@ package soyhtml
 //@   at call soyhtml.htmlEscapeString#0 set writes = writes + 1
 //@   at call io.WriteString#0 assert[raw-only-if-off-or-cancelled] (mode == ast.AutoescapeOff || anyCancel) && writes == 0
 //@   at call io.WriteString#0 set writes = writes + 1
+//@   ghost werr bool = false
+//@   at call soyhtml.htmlEscapeString#0 after set werr = werr || res != nil
+//@   at call io.WriteString#0 after set werr = werr || res1 != nil
 //@   ensures[one-write] writes == 1
+//@   ensures[write-failure-surfaces;C12] !werr
 //@   loop 0
 //@     invariant writes == 0 && !anyCancel
 //@   loop 1
@@ -123,3 +135,47 @@ package soyhtml
 //@   ensures[no-raw-data] breaks == 0 ==> typeis(result, data.String) && unbox(result, data.String) == esc
 //@   loop 0
 //@     invariant breaks >= 0 && (isnil(output) == (breaks == 0))
+
+// ---------------------------------------------------------------------------
+// C12: every write issued by the interpreter has its error checked, and a
+// failed write ends in errorf (which never returns), so no function in the
+// render closure returns normally after one of its own writes failed and none
+// issues a further write after a failure.
+//@ func (*state).walk
+//@   props C12
+//@   nosafety
+//@   modifies *
+//@   ghost werr bool = false
+//@   at call io.Writer.Write#* assert[no-write-after-failure] !werr
+//@   at call io.Writer.Write#* after set werr = werr || res1 != nil
+//@   at call io.WriteString#* assert[no-write-after-failure] !werr
+//@   at call io.WriteString#* after set werr = werr || res1 != nil
+//@   ensures[write-failure-surfaces] !werr
+//@   loop 0
+//@     noterm
+//@   loop 1
+//@     noterm
+//@   loop 2
+//@     noterm
+//@   loop 3
+//@     noterm
+//@   loop 4
+//@     noterm
+//@   loop 5
+//@     noterm
+//@   loop 6
+//@     noterm
+//@   loop 7
+//@     noterm
+
+//@ func (*state).evalMsgParts
+//@   props C12
+//@   nosafety
+//@   modifies *
+//@   ghost werr bool = false
+//@   at call io.WriteString#* assert[no-write-after-failure] !werr
+//@   at call io.WriteString#* after set werr = werr || res1 != nil
+//@   ensures[write-failure-surfaces] !werr
+//@   loop 0
+//@     invariant !werr
+//@     noterm
